@@ -116,6 +116,11 @@ func (t *LikeType) Resolve(c px.Context) px.Type {
 		return t.resolved
 	}
 	bt := t.baseType
+	if t.navigation == `` {
+		// the default Like type (no navigation) is its base type, Any
+		t.resolved = bt
+		return bt
+	}
 	bv := bt.(px.Value)
 	var ok bool
 	for _, part := range strings.Split(t.navigation, `.`) {
